@@ -304,8 +304,36 @@ Fixpoint handle_all (st : rstate) (peer : N) (ms : list wmsg) : rstate * N :=
 
 (** * Renderings for the correspondence run (harness/check_C13.py) *)
 
+(** Adler-32 (additions and comparisons only: cheap under [vm_compute]) *)
+Definition adler_step (st : N * N) (b : N) : N * N :=
+  let s1 := fst st + b in
+  let s1 := if s1 <? 65521 then s1 else s1 - 65521 in
+  let s2 := snd st + s1 in
+  (s1, if s2 <? 65521 then s2 else s2 - 65521).
+
 Definition digest (l : bytes) : N :=
-  fold_left (fun acc b => (acc * 16777619 + b) mod 4294967296) l 2166136261.
+  let st := fold_left adler_step l (1, 0) in snd st * 65536 + fst st.
+
+(** Cheap deterministic data for long bundles (harness: [pattern]): three
+    wrapping counters, octet = their xor. *)
+Definition step_wrap (a k : N) : N := let s := a + k in if s <? 256 then s else s - 256.
+
+Fixpoint pattern_aux (len : nat) (a b c : N) : bytes :=
+  match len with
+  | O => []
+  | S l =>
+      let a' := step_wrap a 7 in
+      let b' := if a' <? 7 then step_wrap b 13 else b in
+      let c' := if (a' <? 7) && (b' <? 13) then step_wrap c 29 else c in
+      N.lxor (N.lxor a' b') c' :: pattern_aux l a' b' c'
+  end.
+
+Definition pattern (seed : N) (len : nat) : bytes :=
+  pattern_aux len (seed mod 256) ((seed / 256) mod 256) ((seed / 65536) mod 256).
+
+(** bundles of more than 3000 octets are [pattern], shorter ones [mkdata] *)
+Definition gen_data (seed len : N) : bytes :=
+  if 3000 <? len then pattern seed (N.to_nat len) else mkdata seed (N.to_nat len).
 
 Definition opt_list {A} (o : option A) : list A := match o with Some x => [x] | None => [] end.
 
@@ -314,11 +342,13 @@ Definition mtu_of (l : list N) : option N := match l with m :: _ => Some m | [] 
 (** (mtu as 0/1-element list, xid, seed, length) -> datagrams ([] = never ends) *)
 Definition run_send (c : list N * N * N * N) : list (list bytes) :=
   let '(mtu, xid, seed, len) := c in
-  opt_list (send_transfer_opt (mkdata seed (N.to_nat len)) (mtu_of mtu) xid).
+  opt_list (send_transfer_opt (gen_data seed len) (mtu_of mtu) xid).
 
-(** the same for long bundles: (length, first 24 octets, digest) per datagram *)
-Definition run_send_big (c : list N * N * N * N) : list (list (N * bytes * N)) :=
-  map (map (fun d => (olen d, firstn 24 d, digest d))) (run_send c).
+(** the same rendered per datagram as (length, octets, digest): all octets for
+    bundles of at most 200 octets, the first 24 otherwise *)
+Definition run_send_view (c : list N * N * N * N) : list (list (N * bytes * N)) :=
+  let '(_, _, _, len) := c in
+  map (map (fun d => (olen d, if len <=? 200 then d else firstn 24 d, digest d))) (run_send c).
 
 Definition show_frags (l : list (key * xfer)) : list (N * N * N * ivl * N) :=
   map (fun kv => (fst (fst kv), snd (fst kv), x_total (snd kv), x_valid (snd kv), digest (x_buf (snd kv)))) l.
@@ -344,7 +374,7 @@ Definition run_xfers (c : list (N * N * N * N) * list (N * nat * nat))
   : list (N * N) * list (N * N * N) * list (N * N * N * ivl * N) :=
   let '(xfers, arr) := c in
   let dgs := map (fun t => let '(mtu, xid, seed, len) := t in
-                           match send_transfer (mkdata seed (N.to_nat len)) mtu xid with
+                           match send_transfer (gen_data seed len) mtu xid with
                            | Some l => l
                            | None => []
                            end) xfers in
